@@ -381,10 +381,11 @@ class PolygonFilter(object):
         """Save all polygon filters"""
         if len(PolygonFilter.instances) == 0:
             raise PolygonFilterError("There are no polygon filters to save.")
+        polyobj = polyfile
         for p in PolygonFilter.instances:
             # we return the ret_obj, so we don't need to open and
             # close the file multiple times.
-            polyobj = p.save(polyfile, ret_fobj=True)
+            polyobj = p.save(polyobj, ret_fobj=True)
         # close the object after we are done saving all filters
         polyobj.close()
 
